@@ -24,6 +24,15 @@ func (urlTreeNode *Node[T]) hasValue() bool {
 	return urlTreeNode != nil && urlTreeNode.Value != nil
 }
 
+// wildcardCovers reports whether this wildcard node takes in the given URL part.
+// A wildcard declared in the path ("host.com/*") stands for path segments only:
+// a further host label ("host.com.other/...") belongs to another host. A wildcard
+// in the first position of a URL is always in the host.
+func (urlTreeNode *Node[T]) wildcardCovers(part urlPart, isFirstPart bool) bool {
+	return urlTreeNode != nil &&
+		(isFirstPart || urlTreeNode.IsPartOfHost || !part.IsPartOfHost)
+}
+
 type urlPart struct {
 	IsPartOfHost bool
 	Value        string
